@@ -21,10 +21,10 @@ Definition all_digits (s : pstr) : bool := match s with [] => false | _ => foral
 
 (* int(item) for an item without blanks: IntOk z | IntFail (ValueError) | IntUnk
    (characters whose treatment by int() the model does not cover: '_', any
-   whitespace, '.', non-ASCII). *)
+   whitespace, non-ASCII). *)
 Inductive intres := IntOk (z : Z) | IntFail | IntUnk.
 Definition int_unk_chr (c : N) : bool :=
-  (c =? 95)%N || (c =? 46)%N || (128 <=? c)%N || mem_chr c py_ws.
+  (c =? 95)%N || (128 <=? c)%N || mem_chr c py_ws.
 Definition py_int (s : pstr) : intres :=
   if existsb int_unk_chr s then IntUnk else
   match s with
